@@ -86,6 +86,39 @@ end Sugar
 
 namespace Sugar
 
+theorem handleLLen_nf (c : Ctx) (cmd : List Bytes) : (handleLLen c cmd).NoFlushAll := by unfold handleLLen; nf
+theorem handleLIndex_nf (c : Ctx) (cmd : List Bytes) : (handleLIndex c cmd).NoFlushAll := by unfold handleLIndex; nf
+theorem handleLRange_nf (c : Ctx) (cmd : List Bytes) : (handleLRange c cmd).NoFlushAll := by unfold handleLRange; nf
+theorem handleLSet_nf (c : Ctx) (cmd : List Bytes) : (handleLSet c cmd).NoFlushAll := by unfold handleLSet; nf
+theorem handleLTrim_nf (c : Ctx) (cmd : List Bytes) : (handleLTrim c cmd).NoFlushAll := by unfold handleLTrim; nf
+theorem handleLRem_nf (c : Ctx) (cmd : List Bytes) : (handleLRem c cmd).NoFlushAll := by unfold handleLRem; nf
+theorem handleLMove_nf (c : Ctx) (cmd : List Bytes) : (handleLMove c cmd).NoFlushAll := by unfold handleLMove; nf
+theorem handlePush_nf (l : Bool) (c : Ctx) (cmd : List Bytes) : (handlePush l c cmd).NoFlushAll := by unfold handlePush; nf
+theorem handlePop_nf (c : Ctx) (cmd : List Bytes) : (handlePop c cmd).NoFlushAll := by unfold handlePop; nf
+
+theorem withHash_nf (cmd : List Bytes) (a : Bool) (r : Res) (k : Bytes → KMap Scalar → Prog Res)
+    (h : ∀ x y, (k x y).NoFlushAll) : (withHash cmd a r k).NoFlushAll := by
+  unfold withHash; nf; exact h _ _
+theorem handleHSet_nf (c : Ctx) (cmd : List Bytes) : (handleHSet c cmd).NoFlushAll := by unfold handleHSet; nf
+theorem handleHGet_nf (c : Ctx) (cmd : List Bytes) : (handleHGet c cmd).NoFlushAll := by
+  unfold handleHGet; apply withHash_nf; intros; nf
+theorem handleHStrLen_nf (c : Ctx) (cmd : List Bytes) : (handleHStrLen c cmd).NoFlushAll := by
+  unfold handleHStrLen; apply withHash_nf; intros; nf
+theorem handleHVals_nf (c : Ctx) (cmd : List Bytes) : (handleHVals c cmd).NoFlushAll := by
+  unfold handleHVals; apply withHash_nf; intros; nf
+theorem handleHLen_nf (c : Ctx) (cmd : List Bytes) : (handleHLen c cmd).NoFlushAll := by
+  unfold handleHLen; apply withHash_nf; intros; nf
+theorem handleHKeys_nf (c : Ctx) (cmd : List Bytes) : (handleHKeys c cmd).NoFlushAll := by
+  unfold handleHKeys; apply withHash_nf; intros; nf
+theorem handleHGetAll_nf (c : Ctx) (cmd : List Bytes) : (handleHGetAll c cmd).NoFlushAll := by
+  unfold handleHGetAll; apply withHash_nf; intros; nf
+theorem handleHExists_nf (c : Ctx) (cmd : List Bytes) : (handleHExists c cmd).NoFlushAll := by
+  unfold handleHExists; apply withHash_nf; intros; nf
+theorem handleHDel_nf (c : Ctx) (cmd : List Bytes) : (handleHDel c cmd).NoFlushAll := by
+  unfold handleHDel; apply withHash_nf; intros; nf
+theorem handleHRandField_nf (c : Ctx) (cmd : List Bytes) : (handleHRandField c cmd).NoFlushAll := by unfold handleHRandField; nf
+theorem handleHIncrBy_nf (c : Ctx) (cmd : List Bytes) : (handleHIncrBy c cmd).NoFlushAll := by unfold handleHIncrBy; nf
+
 theorem handleFlush_nf (c : Ctx) (cmd : List Bytes) (hn : ¬ eqFold (cmd.headD []) (b "flushall") = true) :
     (handleFlush c cmd).NoFlushAll := by
   unfold handleFlush
@@ -147,7 +180,20 @@ theorem table_noFlushAll : ∀ e ∈ handlerTable, ∀ (c : Ctx) (cmd : List Byt
     fun c cmd _ => handleStrLen_nf c cmd,
     fun c cmd _ => handleSubStr_nf c cmd,
     fun c cmd _ => handleSubStr_nf c cmd,
-    fun c cmd _ => handleAppend_nf c cmd⟩
+    fun c cmd _ => handleAppend_nf c cmd,
+    fun c cmd _ => handlePush_nf _ c cmd, fun c cmd _ => handlePush_nf _ c cmd,
+    fun c cmd _ => handlePush_nf _ c cmd, fun c cmd _ => handlePush_nf _ c cmd,
+    fun c cmd _ => handlePop_nf c cmd, fun c cmd _ => handlePop_nf c cmd,
+    fun c cmd _ => handleLLen_nf c cmd, fun c cmd _ => handleLRange_nf c cmd,
+    fun c cmd _ => handleLIndex_nf c cmd, fun c cmd _ => handleLSet_nf c cmd,
+    fun c cmd _ => handleLTrim_nf c cmd, fun c cmd _ => handleLRem_nf c cmd,
+    fun c cmd _ => handleLMove_nf c cmd,
+    fun c cmd _ => handleHSet_nf c cmd, fun c cmd _ => handleHSet_nf c cmd,
+    fun c cmd _ => handleHGet_nf c cmd, fun c cmd _ => handleHGet_nf c cmd,
+    fun c cmd _ => handleHStrLen_nf c cmd, fun c cmd _ => handleHVals_nf c cmd,
+    fun c cmd _ => handleHRandField_nf c cmd, fun c cmd _ => handleHLen_nf c cmd,
+    fun c cmd _ => handleHKeys_nf c cmd, fun c cmd _ => handleHIncrBy_nf c cmd, fun c cmd _ => handleHIncrBy_nf c cmd,
+    fun c cmd _ => handleHGetAll_nf c cmd, fun c cmd _ => handleHExists_nf c cmd, fun c cmd _ => handleHDel_nf c cmd⟩
 
 theorem progOf_noFlushAll (c : Ctx) (cmd : List Bytes) (p : Prog Res)
     (h : progOf c cmd = some p) (hn : ¬ eqFold (cmd.headD []) (b "flushall") = true) :
